@@ -414,6 +414,24 @@ class Gen:
         self.new(sh, (-M, M))
         return True
 
+    def s_symvec(self):
+        """symvec of a square (non-symmetric) matrix with every UPLO through the public dispatcher, or vecsym of a vector
+        of triangular length; the matrix stays available to later steps (a second consumer after the node)"""
+        a = self.pick(lambda v: (len(v['shape']) == 2 and v['shape'][0] == v['shape'][1] and v['shape'][0] <= 3) or
+                      (len(v['shape']) == 1 and v['shape'][0] in (1, 3, 6)))
+        if a is None:
+            return False
+        sh = self.vars[a]['shape']
+        if len(sh) == 2:
+            n = sh[0]
+            self.steps.append({'op': 'symvec', 'a': a, 'UPLO': self.rng.choice(['F', 'L', 'U', None])})
+            self.new((n * (n + 1) // 2,), self.vars[a]['iv'])
+        else:
+            n = {1: 1, 3: 2, 6: 3}[sh[0]]
+            self.steps.append({'op': 'vecsym', 'a': a})
+            self.new((n, n), self.vars[a]['iv'])
+        return True
+
     def s_linalg(self):
         """well-conditioned matrix from a vector/matrix value, then inv / solve / det / logdet / trace / factorisation outputs"""
         a = self.pick(lambda v: int(np.prod(v['shape'])) >= 1 and max(abs(v['iv'][0]), abs(v['iv'][1])) <= 6)
@@ -439,7 +457,7 @@ class Gen:
         for sh in input_shapes:
             self.new(sh, (-BOX, BOX))
         kinds = kinds or ['ew', 'ew', 'bin', 'bin', 'binc', 'getitem', 'sum', 'transpose', 'reshape', 'dot', 'dotc',
-                          'outer', 'prod', 'buffer', 'linalg', 'fftfilter', 'buffer2d']
+                          'outer', 'prod', 'buffer', 'linalg', 'fftfilter', 'buffer2d', 'symvec']
         nsteps = self.rng.randint(1, self.maxsteps)
         tries = 0
         made = 0
@@ -468,15 +486,16 @@ def gen_program(rng, input_shapes=None, maxsteps=8, out_scalar=False, kinds=None
 
 
 # --------------------------------------------------------------------------------------
-def _mkmat(v, n, sym, perm=None):
-    """n x n well conditioned matrix built from the entries of v with the public API only"""
+def _mkmat(v, n, sym, perm=None, cols=None):
+    """n x n (or n x cols) well conditioned matrix built from the entries of v with the public API only"""
     flat = algopy.reshape(v, (int(np.prod(np.shape(v.x) if hasattr(v, 'x') else v.shape)),)) if len(v.shape) != 1 else v
     m = flat.shape[0] if not hasattr(flat, 'x') else flat.shape[0]
     t = algopy.sin(flat * 0.5)
-    M = algopy.zeros((n, n), dtype=v)
+    nc = cols if cols else n
+    M = algopy.zeros((n, nc), dtype=v)
     for i in range(n):
-        for j in range(n):
-            e = t[(i * n + j) % m] * 0.4
+        for j in range(nc):
+            e = t[(i * nc + j) % m] * 0.4
             if sym and j < i:
                 continue
             M[(perm[i] if perm else i), j] = e + (3.0 + i if i == j else 0.0)
@@ -485,7 +504,12 @@ def _mkmat(v, n, sym, perm=None):
     return M
 
 
-def _la(kind, M):
+def _la(kind, M, post=False):
+    if post:
+        # the matrix has a second consumer recorded *after* the linear-algebra node: its adjoint is already non-zero
+        # when the pullback of that node runs (accumulate, do not overwrite)
+        r = _la(kind, M)
+        return r + algopy.sum(M * M)
     if kind == 'inv':
         return algopy.inv(M)
     if kind == 'solve':
@@ -500,6 +524,8 @@ def _la(kind, M):
         return algopy.trace(M)
     if kind == 'qr':
         Q, R = algopy.qr(M)
+        if M.shape[0] != M.shape[1]:
+            return algopy.dot(Q, R * R) + algopy.sum(Q * Q) + algopy.sum(R)
         return algopy.dot(Q, R * R)
     if kind == 'qr_full':
         Q, R = algopy.qr_full(M)
@@ -552,6 +578,10 @@ def run_program(prog, inputs):
             vals.append(algopy.dot(vals[st['a']], c) if st['side'] == 'r' else algopy.dot(c, vals[st['a']]))
         elif op == 'outer':
             vals.append(algopy.outer(vals[st['a']], vals[st['b']]))
+        elif op == 'symvec':
+            vals.append(algopy.symvec(vals[st['a']]) if st['UPLO'] is None else algopy.symvec(vals[st['a']], UPLO=st['UPLO']))
+        elif op == 'vecsym':
+            vals.append(algopy.vecsym(vals[st['a']]))
         elif op == 'fftfilter':
             v = vals[st['a']]
             n = v.shape[st['axis']]
@@ -572,9 +602,9 @@ def run_program(prog, inputs):
             else:
                 vals[st['buf']][:, st['k']] = vals[st['val']]
         elif op == 'mkmat':
-            vals.append(_mkmat(vals[st['a']], st['n'], st['sym'], st.get('perm')))
+            vals.append(_mkmat(vals[st['a']], st['n'], st['sym'], st.get('perm'), st.get('cols')))
         elif op == 'la':
-            vals.append(_la(st['kind'], vals[st['a']]))
+            vals.append(_la(st['kind'], vals[st['a']], st.get('post', False)))
         else:
             raise ValueError(op)
     return vals[prog['out']]
